@@ -78,3 +78,43 @@ def approx_cases(r, tier, count, maxn, small_exhaustive, ks, variants=AVARIANTS)
 def run_kind(binary, kind, cases, meta, args_of, timeout=3600):
     text = "".join(render_graph(cid, kind, "d", c[2], args_of(meta[cid]), c[0], c[1]) for cid, c in cases.items())
     return run_harness(binary, text, timeout=timeout)
+
+
+def spider_clique(A, L, wa=100, wc=101):
+    """centre 0, A arms of L edges (weight wa), complete graph on the A arm tips (weight wc).
+    -> n, WE, weight of an explicit cycle basis (an upper bound on the optimum)"""
+    WE, tips, nxt = [], [], 1
+    for a in range(A):
+        prev = 0
+        for i in range(L):
+            WE.append((prev, nxt, wa)); prev = nxt; nxt += 1
+        tips.append(prev)
+    for i in range(A):
+        for j in range(i + 1, A): WE.append((tips[i], tips[j], wc))
+    big = 2 * L * wa + wc
+    basis = (A - 1) * big + ((A - 1) * (A - 2) // 2) * 3 * wc        # arm0+arm j+tip edge; tip triangles through tip 0
+    return nxt, WE, basis
+
+def stretch_search(binary, variants=("signed",), budget_s=600):
+    """focused search after the spanner correspondence broke: a family on which ANY loosening of the hop limit that
+    lets tips at 2L > 2k-1 hops count as 'reachable' turns into a weight above (2k-1) x optimum.  The reference is an
+    explicit basis, so a report is sound whatever the implementation does."""
+    import time
+    t0 = time.time()
+    for k in (2, 3, 4, 5, 6, 7):
+        Ls = sorted({L for L in (3 * k - 1, 3 * k + 2, 4 * k, 6 * k, 2 ** (k - 1) - 1, 2 ** (k - 1), 2 ** k // 2 + 1) if L > 3 * k - 2})
+        for L in Ls:
+            big = 2 * L * 100 + 101
+            A = next((A for A in range(4, 221) if (A * (A - 1) // 2) * big > 1.05 * (2 * k - 1) * ((A - 1) * big + ((A - 1) * (A - 2) // 2) * 303)), None)
+            if A is None or A * L > 6000: continue
+            n, WE, wB = spider_clique(A, L)
+            for v in variants:
+                if time.time() - t0 > budget_s: return None
+                rc, out, err = run_kind(binary, "approx", {"s": (n, WE, 0, "spider-clique")}, {"s": (v, k)}, lambda m: [m[0], m[1]], timeout=300)
+                b = parse_blocks(out).get("s")
+                if rc != 0 or b is None or line(b, "ret") is None: continue
+                tot = sum(WE[e][2] for c in cycles_of(b) for e in c if 0 <= e < len(WE))
+                if tot > (2 * k - 1) * wB:
+                    return {"kind": "graph", "n": n, "edges": WE, "scale": 0, "variant": v, "k": k, "mu_upper": wB, "emitted": tot,
+                            "why": "emitted weight %d exceeds (2k-1) x %d, the weight of an explicit cycle basis (arms=%d, arm length=%d)" % (tot, wB, A, L)}
+    return None
